@@ -43,6 +43,20 @@ CHECKS = {
         "Same injection point as C04; trusts hashlib and os.walk listings.",
         "DESIGN.md 4/C11",
     ),
+    "C15": (
+        "fault_enumeration",
+        "crash-point enumeration: forked child killed before each mutating audit event, over Hypothesis-generated scenarios",
+        "For each generated scenario (stage+transfer with state, index save of nested dirs, store->store transfer "
+        "with/without index, upload staging) the uninterrupted run fixes N mutating events and the reference store; "
+        "then every crash index 1..N (incl. one mid-copy point per copy) is executed in a forked child killed with "
+        "os._exit, the store and state database are audited (no protected or state-vouched mismatching object, "
+        "closed directories, next check discards leftovers), the operation is re-run and must converge to the "
+        "reference contents with every object intact and protected. Exhaustive over crash points per scenario, "
+        "sampled over scenarios.",
+        "Crash points are Python-level mutating calls seen by CPython audit hooks plus a mid-copy point; kills inside "
+        "one write(2) or inside sqlite are not modelled; tmp_fname()-shaped leftovers are allowed and only counted.",
+        "DESIGN.md 4/C15, 3.6",
+    ),
 }
 
 NOT_YET = "check not built yet in this round; see DESIGN.md section 4 for the planned generated check"
